@@ -50,6 +50,65 @@ def promoteOfLetter (b : Nat) : Option Piece :=
 def isFileByte (b : Nat) : Bool := 97 ≤ b && b ≤ 104
 def isRankByte (b : Nat) : Bool := 49 ≤ b && b ≤ 56
 
+/-- the piece-move branch of `san::Data::from_str` (`rest` = the bytes after the piece letter) -/
+def parseSanPiece (data : Bytes) (piece : Piece) (rest : Bytes) : Res SanRawErr SanData :=
+  let k := rest.length - 2   -- saturating_sub
+  let dstBytes := rest.drop k
+  -- `from_utf8(dst_bytes)` fails iff the cut falls inside a character → `Syntax`
+  if !isCharBoundary data (k + 1) then .err .syntax else
+  let bytes := rest.take k
+  match parseCoord dstBytes with
+  | .error e => .err (.invalidDst e)
+  | .ok dst =>
+    let (file, bytes) := match bytes with
+      | b :: t => if isFileByte b then (fileOfByte b, t) else (none, bytes)
+      | [] => (none, bytes)
+    let (rank, bytes) := match bytes with
+      | b :: t => if isRankByte b then (rankOfByte b, t) else (none, bytes)
+      | [] => (none, bytes)
+    let (isCapture, bytes) := match bytes with
+      | b :: t => if b = 120 || b = 58 then (true, t) else (false, bytes)
+      | [] => (false, bytes)
+    if !bytes.isEmpty then .err .nonPawnMoveTooLong
+    else .ok (.simple piece file rank isCapture dst)
+
+/-- promotion suffix (`=`? then one of N B R Q) split off the end -/
+def stripPromote (data : Bytes) : Option Piece × Bytes :=
+  match data.getLast? with
+  | some b =>
+    match promoteOfLetter b with
+    | some p =>
+      let rest := data.dropLast
+      let rest := if rest.getLast? = some 61 then rest.dropLast else rest
+      (some p, rest)
+    | none => (none, data)
+  | none => (none, data)
+
+/-- the pawn-move branch of `san::Data::from_str` (`bytes` = the text without the promotion suffix) -/
+def parseSanPawn (data : Bytes) (promote : Option Piece) (bytes : Bytes) : Res SanRawErr SanData :=
+  if bytes.length < 2 then .err .pawnMoveTooShort
+  else if bytes.length = 2 && isFileByte (bytes.getD 0 0) && isFileByte (bytes.getD 1 0) then
+    match fileOfByte (bytes.getD 0 0), fileOfByte (bytes.getD 1 0) with
+    | some f1, some f2 => .ok (.pawnCaptureShort f1 f2 promote)
+    | _, _ => .trap "File::from_char unwrap"
+  else
+    let k := bytes.length - 2
+    let dstBytes := bytes.drop k
+    if !isCharBoundary data k then .err .syntax else
+    let bytes := bytes.take k
+    match parseCoord dstBytes with
+    | .error e => .err (.invalidDst e)
+    | .ok dst =>
+      match bytes with
+      | [] => .ok (.pawnMove dst promote)
+      | [_] => .err .syntax
+      | [b0, b1] =>
+        if !isFileByte b0 || !(b1 = 58 || b1 = 120) then .err .syntax
+        else match fileOfByte b0 with
+          | some f => .ok (.pawnCapture f dst promote)
+          | none => .trap "File::from_char unwrap"
+      | _ => .err .pawnMoveTooLong
+
 /-- `san::Data::from_str` (repaired) -/
 def parseSanData (data : Bytes) : Res SanRawErr SanData :=
   if data = [79, 45, 79] || data = [48, 45, 48] then .ok (.castling .king)
@@ -64,60 +123,8 @@ def parseSanData (data : Bytes) : Res SanRawErr SanData :=
       | [] => .trap "bytes[0] on empty"
       | first :: rest =>
         match pieceOfLetter first with
-        | some piece =>
-          let bytes := rest
-          let k := bytes.length - 2   -- saturating_sub
-          let dstBytes := bytes.drop k
-          -- `from_utf8(dst_bytes)` fails iff the cut falls inside a character → `Syntax`
-          if !isCharBoundary data (k + 1) then .err .syntax else
-          let bytes := bytes.take k
-          match parseCoord dstBytes with
-          | .error e => .err (.invalidDst e)
-          | .ok dst =>
-            let (file, bytes) := match bytes with
-              | b :: t => if isFileByte b then (fileOfByte b, t) else (none, bytes)
-              | [] => (none, bytes)
-            let (rank, bytes) := match bytes with
-              | b :: t => if isRankByte b then (rankOfByte b, t) else (none, bytes)
-              | [] => (none, bytes)
-            let (isCapture, bytes) := match bytes with
-              | b :: t => if b = 120 || b = 58 then (true, t) else (false, bytes)
-              | [] => (false, bytes)
-            if !bytes.isEmpty then .err .nonPawnMoveTooLong
-            else .ok (.simple piece file rank isCapture dst)
-        | none =>
-          let (promote, bytes) : Option Piece × Bytes :=
-            match data.getLast? with
-            | some b =>
-              match promoteOfLetter b with
-              | some p =>
-                let rest := data.dropLast
-                let rest := if rest.getLast? = some 61 then rest.dropLast else rest
-                (some p, rest)
-              | none => (none, data)
-            | none => (none, data)
-          if bytes.length < 2 then .err .pawnMoveTooShort
-          else if bytes.length = 2 && isFileByte (bytes.getD 0 0) && isFileByte (bytes.getD 1 0) then
-            match fileOfByte (bytes.getD 0 0), fileOfByte (bytes.getD 1 0) with
-            | some f1, some f2 => .ok (.pawnCaptureShort f1 f2 promote)
-            | _, _ => .trap "File::from_char unwrap"
-          else
-            let k := bytes.length - 2
-            let dstBytes := bytes.drop k
-            if !isCharBoundary data k then .err .syntax else
-            let bytes := bytes.take k
-            match parseCoord dstBytes with
-            | .error e => .err (.invalidDst e)
-            | .ok dst =>
-              match bytes with
-              | [] => .ok (.pawnMove dst promote)
-              | [_] => .err .syntax
-              | [b0, b1] =>
-                if !isFileByte b0 || !(b1 = 58 || b1 = 120) then .err .syntax
-                else match fileOfByte b0 with
-                  | some f => .ok (.pawnCapture f dst promote)
-                  | none => .trap "File::from_char unwrap"
-              | _ => .err .pawnMoveTooLong
+        | some piece => parseSanPiece data piece rest
+        | none => parseSanPawn data (stripPromote data).1 (stripPromote data).2
 
 /-- `san::Move::from_str` -/
 def parseSan (s : Bytes) : Res SanRawErr SanMove :=
